@@ -611,6 +611,12 @@ class BackendZ3(Backend):
             return claripy.RotateLeft(children[0], children[1])
         if op_name == "RotateRight":
             return claripy.RotateRight(children[0], children[1])
+        if z3_op_nums[decl_num] in ("Z3_OP_BSMOD", "Z3_OP_BSMOD_I"):
+            # claripy's SMod is the signed remainder (sign of the dividend); bvsmod takes the sign of the divisor
+            rem = claripy.SMod(children[0], children[1])
+            zero = claripy.BVV(0, rem.length)
+            same_sign = claripy.SLT(rem, zero) == claripy.SLT(children[1], zero)
+            return claripy.If(claripy.Or(rem == zero, same_sign), rem, rem + children[1])
 
         if op_name == "UNINTERPRETED" and num_args == 0:  # symbolic value
             symbol_name = _z3_decl_name_str(ctx, decl)
